@@ -1061,8 +1061,8 @@ func (e *termEnv) guardsOf(b *ssa.BasicBlock) []Guard {
 		if !ok {
 			continue
 		}
-		in0 := d.Succs[0].Dominates(b) && len(d.Succs[0].Preds) == 1
-		in1 := d.Succs[1].Dominates(b) && len(d.Succs[1].Preds) == 1
+		in0 := d.Succs[0].Dominates(b) && onlyEntryFrom(d.Succs[0], d)
+		in1 := d.Succs[1].Dominates(b) && onlyEntryFrom(d.Succs[1], d)
 		if in0 == in1 {
 			continue
 		}
@@ -1360,4 +1360,20 @@ func freeVarBinding(fv *ssa.FreeVar) ssa.Value {
 		return nil
 	}
 	return found
+}
+
+// onlyEntryFrom: every way into block s comes from block d, except back edges from blocks that s itself dominates
+// (s is then a loop header entered only through d).
+func onlyEntryFrom(s, d *ssa.BasicBlock) bool {
+	n := 0
+	for _, p := range s.Preds {
+		if p == d {
+			n++
+			continue
+		}
+		if !s.Dominates(p) {
+			return false
+		}
+	}
+	return n == 1
 }
